@@ -395,6 +395,71 @@ def correspond(pid, tier, backend, gen_args, workdir, stats):
                     head + diffnote + "# no direct oracle fired on this history or on its continuation\n" + mini, False)
 
 
+# ------------------------------------------------------------------ source fingerprints
+
+BASELINE_FP = os.path.join(VERIF, "checklib", "src_baseline.json")
+
+
+def _norm_rust(text):
+    """Token-level normal form: comments and whitespace removed (string literals kept)."""
+    out, i, n = [], 0, len(text)
+    while i < n:
+        c = text[i]
+        if text.startswith("//", i):
+            j = text.find("\n", i)
+            i = n if j < 0 else j
+        elif text.startswith("/*", i):
+            depth, i = 1, i + 2
+            while i < n and depth:
+                if text.startswith("/*", i):
+                    depth, i = depth + 1, i + 2
+                elif text.startswith("*/", i):
+                    depth, i = depth - 1, i + 2
+                else:
+                    i += 1
+        elif c == '"':
+            j = i + 1
+            while j < n and text[j] != '"':
+                j += 2 if text[j] == "\\" else 1
+            out.append(text[i:j + 1])
+            i = j + 1
+        elif c.isspace():
+            if out and out[-1] != " ":
+                out.append(" ")
+            i += 1
+        else:
+            out.append(c)
+            i += 1
+    return "".join(out)
+
+
+def source_fingerprints(repo=None):
+    import hashlib
+    repo = repo or REPO
+    fps = {}
+    src = os.path.join(repo, "src")
+    for root, _, files in os.walk(src):
+        for f in sorted(files):
+            if f.endswith(".rs"):
+                p = os.path.join(root, f)
+                rel = os.path.relpath(p, repo)
+                if rel == "src/raw/verif.rs":
+                    continue
+                fps[rel] = hashlib.sha256(_norm_rust(open(p, errors="replace").read()).encode()).hexdigest()[:16]
+    return fps
+
+
+def changed_sources():
+    """Files of /repo/src whose token stream differs from the tree the model was last validated against
+    (checklib/src_baseline.json). Used ONLY to spend more search effort on a changed tree (more generated
+    histories per tie); it never decides a property."""
+    if not os.path.exists(BASELINE_FP):
+        return []
+    base = json.load(open(BASELINE_FP))
+    cur = source_fingerprints()
+    return sorted(k for k in set(base) | set(cur) if base.get(k) != cur.get(k))
+
+
 # ------------------------------------------------------------------ known findings
 
 def known_findings():
@@ -459,6 +524,10 @@ def setup():
 def main(argv):
     if argv and argv[0] == "--setup":
         return setup()
+    if argv and argv[0] == "--fingerprint":
+        json.dump(source_fingerprints(), open(BASELINE_FP, "w"), indent=1, sort_keys=True)
+        print("wrote", BASELINE_FP)
+        return 0
     import props
     if len(argv) < 2:
         print(__doc__)
